@@ -40,6 +40,7 @@ class Facts:
             self.consts.update(c.consts)
             self.adts.update(c.adts)
             self.impls.extend(c.impls)
+        self._alias = {}
         self.by_path = {}
         for k, f in self.fns.items():
             self.by_path.setdefault(f["path"], []).append(f)
@@ -47,6 +48,34 @@ class Facts:
         for k, c in self.consts.items():
             c["key"] = k
             self.const_by_path.setdefault(c["path"], []).append(c)
+
+    def adt_of(self, ty):
+        """ADT facts for a printed type, following re-export aliases (`crate::EdwardsPoint` == `crate::edwards::EdwardsPoint`)."""
+        base = re.sub(r"<.*", "", ty.strip())
+        a = self.adts.get(base)
+        if a is not None:
+            return a
+        hit = self._alias.get(base)
+        if hit is None and "::" in base:
+            crate, last = base.split("::")[0], base.split("::")[-1]
+            c = [p for p in self.adts if p.startswith(crate + "::") and p.endswith("::" + last)]
+            hit = c[0] if len(c) == 1 else ""
+            self._alias[base] = hit
+        return self.adts.get(hit) if hit else None
+
+    def adt_path(self, ty):
+        base = re.sub(r"<.*", "", ty.strip())
+        if base in self.adts:
+            return base
+        self.adt_of(ty)
+        return self._alias.get(base) or base
+
+    def named_len(self, name):
+        """value of an array-length constant printed by name (`[u8; SECRET_KEY_LENGTH]`)"""
+        if name.isdigit():
+            return int(name)
+        vals = {c[0].get("value") for p, c in self.const_by_path.items() if p.endswith("::" + name.split("::")[-1]) and isinstance(c[0].get("value"), int)}
+        return vals.pop() if len(vals) == 1 else None
 
     def has_cfg(self, s):
         return any(s in c.cfg for c in self.crates.values())
